@@ -269,6 +269,17 @@ def check_handlers(ctx):
         en = Enumerator(prog, f, handler_paths=True)
         paths = en.run()
         for t in trys:
+            # `try: h = REGISTRY[kind] / except KeyError:` asks whether the
+            # kind is registered; what follows is handler selection, judged
+            # by the leaf-parser clause below, not a parse error
+            if len(t.body) == 1 and isinstance(
+                    t.body[0], (ast.Assign, ast.Expr)) and isinstance(
+                        t.body[0].value, ast.Subscript) and all(
+                    U(h.type or '') == 'KeyError' for h in t.handlers) and \
+                    not any(isinstance(x, ast.Call) and U(x.func).split(
+                        '.')[-1] not in ('get_extensions',)
+                        for x in ast.walk(t.body[0].value)):
+                continue
             for h in t.handlers:
                 nh += 1
                 tag = 'try@%d' % t.lineno
@@ -415,6 +426,15 @@ def check_each_value(ctx):
                     U(e.func) == 'cls' or prog.resolve(
                         t.module_of(p.outcome.frame), e.func)
                     == POLICY + '.Rules')):
+                if isinstance(e, ast.Call) and not e.args and (
+                        U(e.func) == 'cls' or prog.resolve(
+                            t.module_of(p.outcome.frame), e.func)
+                        == POLICY + '.Rules'):
+                    raise AnalysisError(
+                        '%s builds an empty rule store and fills it entry '
+                        'by entry: the rule that every value of the mapping '
+                        'goes through parse_rule reads the store built from '
+                        'one parsed mapping' % f.qual)
                 bad = bad or (p, 'does not build the rule store from the '
                               'parsed mapping (%s)' % U(e)[:60])
                 continue
